@@ -140,7 +140,7 @@ fn boundary_lens(kid: u8, thorough: bool) -> Vec<usize> {
 
 pub fn rand_len(ctx: &mut Ctx, kid: u8) -> usize {
     if !kind_is_fixed(kid) && ctx.allow_huge.get() && ctx.rng.chance(1, if ctx.thorough { 12 } else { 40 }) {
-        return ctx.rng.pick(&[4160usize, 4224, 6400, 8192, 8256, 8320, 12800]) + ctx.rng.below(3) as usize - 1;
+        return ctx.rng.pick(&[4160usize, 4224, 6400, 8192, 8256, 8320, 12800, 16448, 20000, 33000, 40004]) + ctx.rng.below(3) as usize - 1;
     }
     let mut b = boundary_lens(kid, ctx.thorough);
     b.retain(|l| *l <= ctx.max_len.get());
@@ -237,7 +237,28 @@ pub fn lattice(len: usize, rng: &Rng) -> Vec<Vec<u64>> {
     out
 }
 
+/// values with a few isolated set bits, a few isolated cleared bits, or all-ones words between small words
+pub fn sparse_limbs(rng: &Rng, len: usize) -> Vec<u64> {
+    let n = (len + 63) / 64;
+    let mut l = match rng.below(3) {
+        0 => vec![0u64; n],
+        1 => vec![u64::MAX; n],
+        _ => (0..n).map(|i| if i % 2 == 0 { rng.below(8) } else { u64::MAX }).collect(),
+    };
+    if len > 0 {
+        for _ in 0..(1 + rng.below(4)) {
+            let i = rng.below(len as u64) as usize;
+            l[i / 64] ^= 1u64 << (i % 64);
+        }
+    }
+    limbs_mask(&mut l, len);
+    l
+}
+
 pub fn rand_limbs(ctx: &mut Ctx, len: usize) -> Vec<u64> {
+    if ctx.rng.chance(1, 6) {
+        return sparse_limbs(&ctx.rng, len);
+    }
     if ctx.rng.chance(2, 3) {
         let l = lattice(len, &ctx.rng);
         ctx.rng.pick(&l)
@@ -383,7 +404,58 @@ fn alias_cases(ctx: &mut Ctx, ops: &[u32], per_kind: u64) {
     }
 }
 
+/// multiplication and addition / subtraction with small-word operands: vectors whose words are small integers, equal
+/// neighbours, or all ones with a few isolated holes, against an all-ones / single-word / sparse multiplier; every form.
+/// (partial sums that hit exactly 0xFFFF..FF and then receive a carry, several words below the top)
+fn small_word_arith_cases(ctx: &mut Ctx, ops: &[u32]) {
+    for ka in [KD, KA, 20, 9, 25] {
+        for nwords in [3usize, 4, 5, 6, 9] {
+            let la = nwords * 64;
+            if la > kind_cap_or(ka, 100000) {
+                continue;
+            }
+            for pat in 0..6 {
+                let a: Vec<u64> = match pat {
+                    0 => vec![5, 3, 3, 7, 2, 2, 9, 1, 4][..nwords].to_vec(),
+                    1 => (0..nwords).map(|i| [9u64, 2, 2, 1, 1, 6, 6, 3, 3][i]).collect(),
+                    2 => (0..nwords).map(|_| 1 + ctx.rng.below(6)).collect(),
+                    3 => (0..nwords).map(|i| if i % 2 == 0 { u64::MAX - ctx.rng.below(4) } else { ctx.rng.below(4) }).collect(),
+                    4 => sparse_limbs(&ctx.rng, la),
+                    _ => (0..nwords).map(|_| u64::MAX - ctx.rng.below(3)).collect(),
+                };
+                let av = make_val(ka, la, &a, ctx.rng.below(2) as usize, true);
+                for kb in [KD, KA, 7] {
+                    for lb in [64usize, 128] {
+                        if lb > kind_cap_or(kb, 100000) {
+                            continue;
+                        }
+                        let b: Vec<u64> = match ctx.rng.below(3) { 0 => vec![u64::MAX; lb / 64], 1 => vec![u64::MAX - 1; lb / 64], _ => sparse_limbs(&ctx.rng, lb) };
+                        let bv = make_val(kb, lb, &b, ctx.rng.below(2) as usize, ctx.rng.chance(1, 2));
+                        let op = ctx.rng.pick(ops);
+                        for form in 0..6 {
+                            ctx.emit(Case::new(op).form(form).val(av.clone()).val(bv.clone()));
+                        }
+                    }
+                }
+                // the same multiplier as a native integer
+                for form in 0..6 {
+                    ctx.emit(Case::new(ctx.rng.pick(ops)).form(form).arg(tb(64)).arg(u64::MAX as u128).arg(us(64)).val(av.clone()));
+                }
+            }
+        }
+    }
+    // a type with more than 255 words: dense operands (column sums of more than 255 carries)
+    let ones = make_val(25, 2400, &vec![u64::MAX; 38], 0, false);
+    let dense = make_val(25, 2400, &(0..38).map(|_| ctx.rng.next() | 0x8080_8080_8080_8080).collect::<Vec<u64>>(), 0, false);
+    for (x, y) in [(ones.clone(), ones.clone()), (dense.clone(), ones.clone()), (dense.clone(), dense.clone())] {
+        for op in ops {
+            ctx.emit(Case::new(*op).form(ctx.rng.below(6) as u32).val(x.clone()).val(y.clone()));
+        }
+    }
+}
+
 fn gen_c01(ctx: &mut Ctx) {
+    small_word_arith_cases(ctx, &[66, 67, 68, 68]);
     wide_native_on_short(ctx, &[66, 67, 68]);
     ctx.allow_huge.set(true);
     let na = ctx.scale(12, 120);
@@ -565,6 +637,32 @@ fn gen_c02(ctx: &mut Ctx) {
             }
         }
     }
+    // sparse divisors 2^k + c (interior zero words) under dividends 2^m + d: quotient-digit over-estimates with a
+    // zero word in the (normalised) divisor, remainders of the form b - 1
+    for ka in [KD, KA, 20, 22] {
+        for k in [65usize, 127, 128, 129, 189, 191, 192, 250, 320] {
+            for (dm, d) in [(2usize, 3u64), (1, 1), (3, 0), (64, 5), (66, 1)] {
+                let la = k + dm + 1;
+                if la > kind_cap_or(ka, 100000) {
+                    continue;
+                }
+                let mut a = vec![0u64; (la + 63) / 64];
+                a[(k + dm) / 64] |= 1u64 << ((k + dm) % 64);
+                a[0] |= d;
+                let mut b = vec![0u64; (k + 1 + 63) / 64];
+                b[k / 64] |= 1u64 << (k % 64);
+                b[0] |= ctx.rng.pick(&[1u64, 1, 3]);
+                let kb = ctx.rng.pick(&[KD, KA, 20, 22]);
+                let av = make_val(ka, la, &a, ctx.rng.below(2) as usize, true);
+                let bv = make_val(kb, k + 1 + ctx.rng.below(3) as usize, &b, ctx.rng.below(2) as usize, true);
+                ctx.emit(Case::new(71).val(av.clone()).val(bv.clone()));
+                // a + (b - 1): remainder b - 1 when a is a multiple; and all-ones of that length
+                let ones = make_val(ka, la, &vec![u64::MAX; (la + 63) / 64], 0, true);
+                ctx.emit(Case::new(71).val(ones).val(bv.clone()));
+                ctx.emit(Case::new(69 + ctx.rng.below(2) as u32).form(ctx.rng.below(6) as u32).val(av).val(bv));
+            }
+        }
+    }
     // zero and empty dividends against zero and empty divisors: every form of /, % and div_rem must panic
     for ka in 0..NKINDS {
         for kb in 0..NKINDS {
@@ -723,6 +821,17 @@ fn gen_c05(ctx: &mut Ctx) {
 
 fn gen_c06(ctx: &mut Ctx) {
     ctx.allow_huge.set(true);
+    // rotations of vectors longer than any internal stash (256 words = 16384 bits), amounts beyond it
+    for k in [KD, KA] {
+        for len in [16385usize, 20000, 33001] {
+            let l = rand_limbs(ctx, len);
+            let a = make_val(k, len, &l, ctx.rng.below(2) as usize, true);
+            for r in [1usize, 64, 16384, 16385, 16484, len - 16385, len - 1, len] {
+                ctx.emit(Case::new(54).arg(r as u128).val(a.clone()));
+                ctx.emit(Case::new(55).arg(r as u128).val(a.clone()));
+            }
+        }
+    }
     let n = ctx.scale(60, 600);
     for ka in 0..NKINDS {
         for _ in 0..n {
@@ -1459,6 +1568,18 @@ fn slice_rechunk_cases(ctx: &mut Ctx) {
 }
 
 fn gen_c13(ctx: &mut Ctx) {
+    // serialisation of vectors longer than any internal buffer (4 KiB = 32768 bits), both byte orders, every residue class
+    // of the length modulo 64 that matters (0, 1, 4, 56, 57, 63)
+    for k in [KD, KA] {
+        for len in [32768usize, 32769, 33000, 40001, 40004, 40056, 40057, 40063, 65600] {
+            let l = rand_limbs(ctx, len);
+            let a = make_val(k, len, &l, ctx.rng.below(2) as usize, true);
+            for e in [0u128, 1] {
+                ctx.emit(Case::new(22).arg(e).val(a.clone()));
+                ctx.emit(Case::new(23).arg(e).arg(0).val(a.clone()));
+            }
+        }
+    }
     let n = ctx.scale(100, 1000);
     for k in 0..NKINDS {
         for _ in 0..n {
@@ -1715,6 +1836,9 @@ fn gen_c15(ctx: &mut Ctx) {
 }
 
 fn gen_c16(ctx: &mut Ctx) {
+    // run lengths beyond 2^32 on a vector of 2^32 + 8 bits (harness-only oracle, op 99)
+    ctx.emit(Case::new(99).arg(1).arg(14));
+    ctx.emit(Case::new(99).arg(1).arg(15));
     ctor_cases(ctx);
     let n = ctx.scale(30, 300);
     for k in 0..NKINDS {
@@ -1841,6 +1965,7 @@ fn gen_c19(ctx: &mut Ctx) {
 }
 
 fn gen_c20(ctx: &mut Ctx) {
+    small_word_arith_cases(ctx, &[66, 67, 68, 68, 63, 64, 65]);
     wide_native_on_short(ctx, &[63, 64, 65, 66, 67, 68, 69, 70]);
     wide_shift_amounts(ctx);
     let na = ctx.scale(6, 60);
